@@ -64,6 +64,14 @@ CHECKS = {
             "total enumeration of the 12^5 candle field grid x 12 previous closes, per-field 12^3 associativity triples plus cross-field triples, and of string families (all case masks, whitespace variants, edit-distance-1 neighbourhoods, all kind x length MA texts) against independent formulas and grammars",
             "Every helper is a pure function of at most six floats; the grid holds every class of value the code distinguishes (NaN, infinities, signed zeros, subnormal, ordinary, huge) in every field position, so each identity and the validate predicate are decided on every combination of classes. Text parsing is decided on the complete edit-distance-1 neighbourhood of every accepted form.",
             "Trusted: the independently written formulas/predicate/grammars in c18.rs. Value identities are judged on finite operands with a 4-8 ulp radius; values between grid points are not executed."),
+    "C19": ("DESIGN.md §6 C19",
+            "the same exhaustively enumerated program set (every input sequence to depth 3-4 for every method over small + boundary parameters incl. both zeros, every indicator in default/small/MA-kind configurations, Window observers and iterator splits, serde) executed in the default build, the unsafe_performance build and the unsafe_performance+debug-assertions build; per-program 128-bit digests compared; std's get_unchecked precondition checks and valgrind memcheck (Window/SMM blocks) as observers attached to the enumerated runs",
+            "Every program is run in both builds and compared bit for bit (instance Debug text included, so an in-bounds wrong copy shows up too); an out-of-range unchecked index aborts the ub_checks build, an out-of-allocation raw copy is reported by memcheck; programs on which the default build panics are excluded as the property says.",
+            "Trusted: rustc/std ub_checks, valgrind 3.19. Memory monitors see the enumerated programs only; Miri/ASan are not part of the registered commands."),
+    "C20": ("DESIGN.md §6 C20",
+            "per-program output digests of the same enumerated program set compared across feature builds (default vs period_type_u16 [+u32, u64, u16+unsafe thorough]; f32 vs f32+unsafe, f32+u16 thorough), plus the definitional model-checking runs C01/C02/C04/C14 re-executed INSIDE the u16 build with window lengths 255..1000 (4096 thorough) and C02/C03/C04 (C15 thorough) inside the value_type_f32 build at eps = 2^-23",
+            "Width and precision are compile-time choices, so they are checked by building them: bit equality where the parameter fits the default type, and the same exhaustive definitional explorations where it does not or where precision differs.",
+            "Trusted: output rendering independent of integer width. Programs the default build rejects but a wider build accepts (capacity differences such as WSMA length < MAX/2) are counted and excluded from the bit comparison; their Ok side is covered by the definitional re-runs."),
 }
 
 NOT_YET = "check not built yet (work in progress; see DESIGN.md §6 for the plan)"
